@@ -5,7 +5,7 @@ import ast
 from typing import Dict, List, Optional, Set, Tuple
 
 from .. import AnalysisError
-from ..astutil import call_chain, chain
+from ..astutil import call_chain, chain, single_assignments
 from ..calls import arg_for
 from ..core import Ctx, Report
 from ..model import FuncInfo, ClassInfo, NotConst, norm
@@ -419,6 +419,34 @@ def _is_range_rejection(p: Path, domain) -> bool:
     return any(any(param in norm(ev.node) for param in domain) for ev in last_tests)
 
 
+def _lookup_truth(fn, ev):
+    """For a test on the outcome of the lookup in ``self._settings`` (``if setting:``, ``if not (s := self._settings.get(i)):``,
+    ``if s is None:``, ``if i in self._settings:``): whether the lookup succeeded on this branch; None for any other test."""
+    node, val = ev.node, bool(ev.data)
+    local = single_assignments(fn.node)
+    for _ in range(6):
+        if isinstance(node, ast.UnaryOp) and isinstance(node.op, ast.Not):
+            node, val = node.operand, not val
+        elif isinstance(node, ast.Compare) and len(node.ops) == 1 and isinstance(node.comparators[0], ast.Constant) \
+                and node.comparators[0].value is None and isinstance(node.ops[0], (ast.Is, ast.IsNot, ast.Eq, ast.NotEq)):
+            if isinstance(node.ops[0], (ast.Is, ast.Eq)):
+                val = not val
+            node = node.left
+        elif isinstance(node, ast.NamedExpr):
+            node = node.value
+        elif isinstance(node, ast.Name) and node.id in local:
+            node = local[node.id]
+        else:
+            break
+    if isinstance(node, ast.Compare) and len(node.ops) == 1 and isinstance(node.ops[0], (ast.In, ast.NotIn)) \
+            and norm(node.comparators[0]).endswith("_settings"):
+        return val if isinstance(node.ops[0], ast.In) else not val
+    if isinstance(node, ast.Call) and isinstance(node.func, ast.Attribute) and node.func.attr == "get" \
+            and norm(node.func.value).endswith("_settings"):
+        return val
+    return None
+
+
 # ----------------------------------------------------------------------- R3
 def r3(ctx: Ctx, rep: Report, wire: Wire):
     prog = ctx.prog
@@ -436,7 +464,7 @@ def r3(ctx: Ctx, rep: Report, wire: Wire):
                 any(ev.kind == "test" and ev.data is True and isinstance(ev.node, ast.UnaryOp) for ev in p.events)
             tests = {norm(ev.node): ev.data for ev in p.events if ev.kind == "test"}
             modbus = next((v for k, v in tests.items() if "startswith('modbus')" in k), None)
-            setting_falsy = any((k in ("setting",) and v is False) or (k == "not setting" and v is True) for k, v in tests.items())
+            setting_falsy = any(_lookup_truth(fn, ev) is False for ev in p.events if ev.kind == "test")
             is_time = next((v for k, v in tests.items() if "== 'time'" in k), False)
             if not setting_falsy or modbus or is_time:
                 continue
